@@ -132,6 +132,11 @@ Definition encodes_as_form (pk : packet) (bs : bytes) : Prop :=
   exists body, bs = frame (abs pk) body /\ In body (bodies (pk_version pk) (abs pk)) /\
                len body <= 268435455.
 
+(* the encoder succeeds and writes a reference form *)
+Definition encode_ok (pk : packet) : Prop :=
+  exists body, mochi_encode pk = Ok (frame (abs pk) body) /\ In body (bodies (pk_version pk) (abs pk)) /\
+               len body <= 268435455.
+
 (* ---------- per type: the encoder writes a reference form of [abs pk] ---------- *)
 
 Lemma publish_byte dup qos retain : qos <= 2 ->
@@ -150,11 +155,11 @@ Lemma fh_byte_eq fh : fh_byte fh =
                      (N.shiftl (fh_qos fh) 1)) (encodeBool (fh_retain fh))).
 Proof. reflexivity. Qed.
 
-Lemma publish_encodes pk bs : wf_packet pk = true -> fh_type (pk_fh pk) = 3 ->
-  mochi_encode pk = Ok bs -> encodes_as_form pk bs.
+Lemma publish_encode_ok pk : wf_packet pk = true -> fh_type (pk_fh pk) = 3 -> KF_C26_pid0 pk = false ->
+  encode_ok pk.
 Proof.
-  intros W Ety E. unfold mochi_encode in E. rewrite Ety in E. unfold publish_encode in E.
-  wf_open W Ety. unfold encodes_as_form.
+  intros W Ety K. unfold encode_ok, mochi_encode. rewrite Ety. unfold publish_encode.
+  wf_open W Ety.
   assert (Ea : abs pk = SPublish (fh_dup (pk_fh pk)) (fh_qos (pk_fh pk)) (fh_retain (pk_fh pk)) (pk_topic pk)
                  (if 0 <? fh_qos (pk_fh pk) then pk_packet_id pk else 0)
                  (if pk_version pk =? 5
@@ -174,25 +179,25 @@ Proof.
   unfold sp in Hl |- *. cbn [full_body] in Hl |- *. unfold put_props_v, v5 in Hl |- *.
   match goal with Hs : str_fits (pk_topic pk) = true |- _ => rewrite (encodeString_put _ Hs) in * end.
   destruct (0 <? fh_qos (pk_fh pk)) eqn:Eq.
-  - destruct (pk_packet_id pk =? 0); [discriminate|]. cbn beta iota delta [bind] in E.
+  - destruct (pk_packet_id pk =? 0) eqn:Ep; [exfalso; unfold KF_C26_pid0 in K; rewrite Ep, Ety in K; try rewrite Eq in K; discriminate K|]. cbn beta iota delta [bind] .
     replace (fh_qos (pk_fh pk) =? 0) with false in * by lia.
-    rewrite encodeUint16_put in E by lia.
+    rewrite encodeUint16_put by lia.
     destruct (pk_version pk =? 5) eqn:E5.
-    + unfold enc_props in E. rewrite Ety in E. rewrite blen_app in E. change (blen (put_u16 _)) with 2 in E.
-      rewrite props_encode_entries in E by assumption. cbn beta iota delta [bind] in E.
-      rewrite <- !app_assoc in E.
-      rewrite (finish_frame pk _ _ Hl Hb) in E. injection E as <-. reflexivity.
-    + cbn beta iota delta [bind] in E. rewrite <- !app_assoc in E.
-      rewrite (finish_frame pk _ _ Hl Hb) in E. injection E as <-. reflexivity.
-  - cbn beta iota delta [bind] in E.
+    + unfold enc_props . rewrite Ety . rewrite blen_app . change (blen (put_u16 _)) with 2 .
+      rewrite props_encode_entries by assumption. cbn beta iota delta [bind] .
+      rewrite <- !app_assoc .
+      rewrite (finish_frame pk _ _ Hl Hb) . reflexivity.
+    + cbn beta iota delta [bind] . rewrite <- !app_assoc .
+      rewrite (finish_frame pk _ _ Hl Hb) . reflexivity.
+  - cbn beta iota delta [bind] .
     replace (fh_qos (pk_fh pk) =? 0) with true in * by lia.
     destruct (pk_version pk =? 5) eqn:E5.
-    + unfold enc_props in E. rewrite Ety in E. rewrite N.add_0_r in *.
-      rewrite props_encode_entries in E by assumption. cbn beta iota delta [bind] in E.
-      rewrite <- ?app_assoc in E. cbn [app] in E, Hl |- *.
-      rewrite (finish_frame pk _ _ Hl Hb) in E. injection E as <-. reflexivity.
-    + cbn beta iota delta [bind] in E. rewrite <- ?app_assoc in E. cbn [app] in E, Hl |- *.
-      rewrite (finish_frame pk _ _ Hl Hb) in E. injection E as <-. reflexivity.
+    + unfold enc_props . rewrite Ety . rewrite N.add_0_r in *.
+      rewrite props_encode_entries by assumption. cbn beta iota delta [bind] .
+      rewrite <- ?app_assoc . cbn [app] in Hl |- *.
+      rewrite (finish_frame pk _ _ Hl Hb) . reflexivity.
+    + cbn beta iota delta [bind] . rewrite <- ?app_assoc . cbn [app] in Hl |- *.
+      rewrite (finish_frame pk _ _ Hl Hb) . reflexivity.
 Qed.
 
 Ltac bindE E := cbn beta iota delta [bind] in E.
@@ -220,11 +225,11 @@ Proof.
   replace (fh_qos (pk_fh pk)) with q by lia. apply simple_byte; assumption.
 Qed.
 
-Lemma connack_encodes pk bs : wf_packet pk = true -> fh_type (pk_fh pk) = 2 ->
-  mochi_encode pk = Ok bs -> encodes_as_form pk bs.
+Lemma connack_encode_ok pk : wf_packet pk = true -> fh_type (pk_fh pk) = 2 -> KF_C26_pid0 pk = false ->
+  encode_ok pk.
 Proof.
-  intros W Ety E. unfold mochi_encode in E. rewrite Ety in E. unfold connack_encode in E.
-  wf_open W Ety. unfold encodes_as_form.
+  intros W Ety K. unfold encode_ok, mochi_encode. rewrite Ety. unfold connack_encode.
+  wf_open W Ety.
   assert (Ea : abs pk = SConnack (pk_session_present pk) (pk_reason_code pk)
                  (if pk_version pk =? 5 then entries 2 (pk_mods pk) (pk_props pk) 4 else []))
     by (unfold abs; rewrite Ety; reflexivity).
@@ -237,12 +242,12 @@ Proof.
   { unfold sp. cbn [ptype pflags]. rewrite (plain_header pk 2 0 Ety); try lia. assumption. }
   match goal with Hp : plist_v _ CONNACK _ = true |- _ => pose proof (plist_v_len _ _ _ Hp) as Lp end.
   unfold sp in Hl |- *. cbn [full_body] in Hl |- *. unfold put_props_v, v5 in Hl |- *.
-  change (blen [encodeBool (pk_session_present pk); pk_reason_code pk] + 2) with 4 in E. unfold encodeBool in E.
+  change (blen [encodeBool (pk_session_present pk); pk_reason_code pk] + 2) with 4 . unfold encodeBool .
   destruct (pk_version pk =? 5) eqn:E5.
-  - unfold enc_props in E. rewrite Ety in E.
-    rewrite props_encode_entries in E by assumption. bindE E.
-    rewrite (finish_frame pk _ _ Hl Hb) in E. injection E as <-. reflexivity.
-  - bindE E. rewrite (finish_frame pk _ _ Hl Hb) in E. injection E as <-. reflexivity.
+  - unfold enc_props . rewrite Ety .
+    rewrite props_encode_entries by assumption. cbn beta iota delta [bind].
+    rewrite (finish_frame pk _ _ Hl Hb) . reflexivity.
+  - cbn beta iota delta [bind]. rewrite (finish_frame pk _ _ Hl Hb) . reflexivity.
 Qed.
 
 Lemma put_props_nil_len : blen (put_props []) = 1.
@@ -259,14 +264,13 @@ Proof.
   lia.
 Qed.
 
-Lemma ack_encodes pk bs ty : wf_packet pk = true -> fh_type (pk_fh pk) = ty ->
-  ty = 4 \/ ty = 5 \/ ty = 6 \/ ty = 7 ->
-  mochi_encode pk = Ok bs -> encodes_as_form pk bs.
+Lemma ack_encode_ok pk ty : wf_packet pk = true -> fh_type (pk_fh pk) = ty ->
+  ty = 4 \/ ty = 5 \/ ty = 6 \/ ty = 7 -> encode_ok pk.
 Proof.
-  intros W Ety Hty E.
-  assert (E' : ack_encode pk = Ok bs).
-  { unfold mochi_encode in E. rewrite Ety in E. destruct Hty as [->|[->|[->| ->]]]; exact E. }
-  clear E. rename E' into E. unfold ack_encode in E.
+  intros W Ety Hty. unfold encode_ok.
+  assert (Em : mochi_encode pk = ack_encode pk).
+  { unfold mochi_encode. rewrite Ety. destruct Hty as [->|[->|[->| ->]]]; reflexivity. }
+  rewrite Em. clear Em. unfold ack_encode.
   assert (Ea : abs pk = SAck (ack_kind_of ty) (pk_packet_id pk) (if pk_version pk =? 5 then pk_reason_code pk else 0)
                  (if pk_version pk =? 5 then entries ty (pk_mods pk) (pk_props pk) 2 else [])).
   { unfold abs. rewrite Ety. destruct Hty as [->|[->|[->| ->]]]; reflexivity. }
@@ -279,41 +283,41 @@ Proof.
     destruct Hty as [->|[->|[->| ->]]]; cbn [ack_kind_of ack_type];
       [rewrite (plain_header pk 4 0 Ety) | rewrite (plain_header pk 5 0 Ety)
       | rewrite (plain_header pk 6 1 Ety) | rewrite (plain_header pk 7 0 Ety)]; try lia; try exact Hflags; reflexivity. }
-  unfold wf_packet in W. rewrite Ety in W. cbv zeta in W. split_and. unfold encodes_as_form.
+  unfold wf_packet in W. rewrite Ety in W. cbv zeta in W. split_and.
   rewrite Ea in *. clear Ea.
   match goal with Hok : enc_ok _ _ = true |- _ => cbn [enc_ok] in Hok end. split_and.
-  rewrite encodeUint16_put in E by lia.
+  rewrite encodeUint16_put by lia.
   assert (Eat : ack_type (ack_kind_of ty) = ty) by (destruct Hty as [->|[->|[->| ->]]]; reflexivity).
   rewrite Eat in *.
   unfold bodies, v5. cbn [full_body]. unfold v5.
   match goal with Hf : (len (full_body _ _) <=? _) = true |- _ => cbn [full_body] in Hf; unfold v5 in Hf end.
   destruct (pk_version pk =? 5) eqn:E5; cbn [negb].
   - match goal with Hp : plist_v _ _ _ = true |- _ => pose proof (plist_v_len _ _ _ Hp) as Lp end.
-    unfold enc_props in E. rewrite Ety in E.
-    change (blen (put_u16 (pk_packet_id pk))) with 2 in E.
-    rewrite props_encode_entries in E by assumption. bindE E.
+    unfold enc_props. rewrite Ety.
+    change (blen (put_u16 (pk_packet_id pk))) with 2.
+    rewrite props_encode_entries by assumption. cbn beta iota delta [bind].
     destruct (entries ty (pk_mods pk) (pk_props pk) 2) as [|c cs] eqn:Een.
-    + change (1 <? blen (put_props [])) with false in E. cbn [when orb] in E. rewrite app_nil_r in E.
+    + change (1 <? blen (put_props [])) with false. cbn [when orb]. rewrite app_nil_r.
       cbn [no_props andb].
-      destruct (pk_reason_code pk =? 0) eqn:Er; cbn [negb orb when] in E.
-      * exists (put_u16 (pk_packet_id pk)). rewrite app_nil_r in E.
-        rewrite (finish_frame pk (put_u16 (pk_packet_id pk)) _ ltac:(change (2 <= 268435455); lia) Hb) in E. injection E as <-.
+      destruct (pk_reason_code pk =? 0) eqn:Er; cbn [negb orb when].
+      * exists (put_u16 (pk_packet_id pk)). rewrite app_nil_r.
+        rewrite (finish_frame pk (put_u16 (pk_packet_id pk)) _ ltac:(change (2 <= 268435455); lia) Hb).
         split; [reflexivity|]. split; [|change (2 <= 268435455); lia].
         right. right. left. reflexivity.
       * exists (put_u16 (pk_packet_id pk) ++ [pk_reason_code pk]).
-        rewrite (finish_frame pk (put_u16 (pk_packet_id pk) ++ [pk_reason_code pk]) _ ltac:(change (3 <= 268435455); lia) Hb) in E. injection E as <-.
+        rewrite (finish_frame pk (put_u16 (pk_packet_id pk) ++ [pk_reason_code pk]) _ ltac:(change (3 <= 268435455); lia) Hb).
         split; [reflexivity|]. split; [|change (3 <= 268435455); lia].
         right. left. reflexivity.
     + pose proof (put_props_cons_len c cs) as L2.
-      replace (1 <? blen (put_props (c :: cs))) with true in E by lia.
-      rewrite orb_true_r in E. cbn [when] in E.
+      replace (1 <? blen (put_props (c :: cs))) with true by lia.
+      rewrite orb_true_r. cbn [when].
       exists (put_u16 (pk_packet_id pk) ++ pk_reason_code pk :: put_props (c :: cs)).
       assert (Hl : len (put_u16 (pk_packet_id pk) ++ pk_reason_code pk :: put_props (c :: cs)) <= 268435455) by lia.
-      change ([pk_reason_code pk] ++ put_props (c :: cs)) with (pk_reason_code pk :: put_props (c :: cs)) in E.
-      rewrite (finish_frame pk _ _ Hl Hb) in E. injection E as <-.
+      change ([pk_reason_code pk] ++ put_props (c :: cs)) with (pk_reason_code pk :: put_props (c :: cs)).
+      rewrite (finish_frame pk _ _ Hl Hb).
       split; [reflexivity|]. split; [left; reflexivity | exact Hl].
   - exists (put_u16 (pk_packet_id pk) ++ []).
-    rewrite (finish_frame pk (put_u16 (pk_packet_id pk)) _ ltac:(change (2 <= 268435455); lia) Hb) in E. injection E as <-.
+    rewrite (finish_frame pk (put_u16 (pk_packet_id pk)) _ ltac:(change (2 <= 268435455); lia) Hb).
     split; [rewrite app_nil_r; reflexivity|]. split; [left; reflexivity | change (2 <= 268435455); lia].
 Qed.
 
@@ -322,11 +326,11 @@ Ltac join_flags := repeat match goal with Hx : ?a = true |- context [?a] => rewr
 Ltac norm_len :=
   match goal with Hf : (len (full_body _ _) <=? _) = true |- _ => cbn [full_body] in Hf; unfold put_props_v, v5 in Hf end.
 
-Lemma suback_encodes pk bs : wf_packet pk = true -> fh_type (pk_fh pk) = 9 ->
-  mochi_encode pk = Ok bs -> encodes_as_form pk bs.
+Lemma suback_encode_ok pk : wf_packet pk = true -> fh_type (pk_fh pk) = 9 -> KF_C26_pid0 pk = false ->
+  encode_ok pk.
 Proof.
-  intros W Ety E. unfold mochi_encode in E. rewrite Ety in E. unfold suback_encode in E.
-  wf_open W Ety. unfold encodes_as_form.
+  intros W Ety K. unfold encode_ok, mochi_encode. rewrite Ety. unfold suback_encode.
+  wf_open W Ety.
   assert (Ea : abs pk = SSuback (pk_packet_id pk)
                  (if pk_version pk =? 5 then entries 9 (pk_mods pk) (pk_props pk) (2 + blen (pk_reason_codes pk)) else [])
                  (pk_reason_codes pk))
@@ -340,19 +344,19 @@ Proof.
   { unfold sp. cbn [ptype pflags]. rewrite (plain_header pk 9 0 Ety); try lia. assumption. }
   match goal with Hp : plist_v _ SUBACK _ = true |- _ => pose proof (plist_v_len _ _ _ Hp) as Lp end.
   unfold sp in Hl |- *. cbn [full_body] in Hl |- *. unfold put_props_v, v5 in Hl |- *.
-  rewrite encodeUint16_put in E by lia. change (blen (put_u16 (pk_packet_id pk))) with 2 in E.
+  rewrite encodeUint16_put by lia. change (blen (put_u16 (pk_packet_id pk))) with 2 .
   destruct (pk_version pk =? 5) eqn:E5.
-  - unfold enc_props in E. rewrite Ety in E.
-    rewrite props_encode_entries in E by assumption. bindE E.
-    rewrite (finish_frame pk _ _ Hl Hb) in E. injection E as <-. reflexivity.
-  - bindE E. rewrite (finish_frame pk _ _ Hl Hb) in E. injection E as <-. reflexivity.
+  - unfold enc_props . rewrite Ety .
+    rewrite props_encode_entries by assumption. cbn beta iota delta [bind].
+    rewrite (finish_frame pk _ _ Hl Hb) . reflexivity.
+  - cbn beta iota delta [bind]. rewrite (finish_frame pk _ _ Hl Hb) . reflexivity.
 Qed.
 
-Lemma unsuback_encodes pk bs : wf_packet pk = true -> fh_type (pk_fh pk) = 11 ->
-  mochi_encode pk = Ok bs -> encodes_as_form pk bs.
+Lemma unsuback_encode_ok pk : wf_packet pk = true -> fh_type (pk_fh pk) = 11 -> KF_C26_pid0 pk = false ->
+  encode_ok pk.
 Proof.
-  intros W Ety E. unfold mochi_encode in E. rewrite Ety in E. unfold unsuback_encode in E.
-  wf_open W Ety. unfold encodes_as_form.
+  intros W Ety K. unfold encode_ok, mochi_encode. rewrite Ety. unfold unsuback_encode.
+  wf_open W Ety.
   assert (Ea : abs pk = SUnsuback (pk_packet_id pk)
                  (if pk_version pk =? 5 then entries 11 (pk_mods pk) (pk_props pk) 2 else [])
                  (if pk_version pk =? 5 then pk_reason_codes pk else []))
@@ -366,20 +370,20 @@ Proof.
   { unfold sp. cbn [ptype pflags]. rewrite (plain_header pk 11 0 Ety); try lia. assumption. }
   match goal with Hp : plist_v _ UNSUBACK _ = true |- _ => pose proof (plist_v_len _ _ _ Hp) as Lp end.
   unfold sp in Hl |- *. cbn [full_body] in Hl |- *. unfold put_props_v, v5 in Hl |- *.
-  rewrite encodeUint16_put in E by lia. change (blen (put_u16 (pk_packet_id pk))) with 2 in E.
+  rewrite encodeUint16_put by lia. change (blen (put_u16 (pk_packet_id pk))) with 2 .
   destruct (pk_version pk =? 5) eqn:E5.
-  - unfold enc_props in E. rewrite Ety in E.
-    rewrite props_encode_entries in E by assumption. bindE E.
-    rewrite (finish_frame pk _ _ Hl Hb) in E. injection E as <-. reflexivity.
+  - unfold enc_props . rewrite Ety .
+    rewrite props_encode_entries by assumption. cbn beta iota delta [bind].
+    rewrite (finish_frame pk _ _ Hl Hb) . reflexivity.
   - cbn [app] in Hl |- *. rewrite app_nil_r in Hl |- *.
-    rewrite (finish_frame pk _ _ Hl Hb) in E. injection E as <-. reflexivity.
+    rewrite (finish_frame pk _ _ Hl Hb) . reflexivity.
 Qed.
 
-Lemma disconnect_encodes pk bs : wf_packet pk = true -> fh_type (pk_fh pk) = 14 ->
-  mochi_encode pk = Ok bs -> encodes_as_form pk bs.
+Lemma disconnect_encode_ok pk : wf_packet pk = true -> fh_type (pk_fh pk) = 14 -> KF_C26_pid0 pk = false ->
+  encode_ok pk.
 Proof.
-  intros W Ety E. unfold mochi_encode in E. rewrite Ety in E. unfold disconnect_encode in E.
-  wf_open W Ety. unfold encodes_as_form.
+  intros W Ety K. unfold encode_ok, mochi_encode. rewrite Ety. unfold disconnect_encode.
+  wf_open W Ety.
   assert (Ea : abs pk = SDisconnect (if pk_version pk =? 5 then pk_reason_code pk else 0)
                  (if pk_version pk =? 5 then entries 14 (pk_mods pk) (pk_props pk) 1 else []))
     by (unfold abs; rewrite Ety; reflexivity).
@@ -393,17 +397,17 @@ Proof.
   match goal with Hp : plist_v _ DISCONNECT _ = true |- _ => pose proof (plist_v_len _ _ _ Hp) as Lp end.
   unfold sp in Hl |- *. cbn [full_body] in Hl |- *. unfold v5 in Hl |- *.
   destruct (pk_version pk =? 5) eqn:E5.
-  - unfold enc_props in E. rewrite Ety in E.
-    rewrite props_encode_entries in E by assumption. bindE E.
-    rewrite (finish_frame pk _ _ Hl Hb) in E. injection E as <-. reflexivity.
-  - rewrite (finish_frame pk _ _ Hl Hb) in E. injection E as <-. reflexivity.
+  - unfold enc_props . rewrite Ety .
+    rewrite props_encode_entries by assumption. cbn beta iota delta [bind].
+    rewrite (finish_frame pk _ _ Hl Hb) . reflexivity.
+  - rewrite (finish_frame pk _ _ Hl Hb) . reflexivity.
 Qed.
 
-Lemma auth_encodes pk bs : wf_packet pk = true -> fh_type (pk_fh pk) = 15 ->
-  mochi_encode pk = Ok bs -> encodes_as_form pk bs.
+Lemma auth_encode_ok pk : wf_packet pk = true -> fh_type (pk_fh pk) = 15 -> KF_C26_pid0 pk = false ->
+  encode_ok pk.
 Proof.
-  intros W Ety E. unfold mochi_encode in E. rewrite Ety in E. unfold auth_encode in E.
-  wf_open W Ety. unfold encodes_as_form.
+  intros W Ety K. unfold encode_ok, mochi_encode. rewrite Ety. unfold auth_encode.
+  wf_open W Ety.
   assert (Ea : abs pk = SAuth (pk_reason_code pk) (entries 15 (pk_mods pk) (pk_props pk) 1))
     by (unfold abs; rewrite Ety; reflexivity).
   rewrite Ea in *. clear Ea.
@@ -415,28 +419,28 @@ Proof.
   { unfold sp. cbn [ptype pflags]. rewrite (plain_header pk 15 0 Ety); try lia. assumption. }
   match goal with Hp : plist_fits AUTH _ = true |- _ => pose proof (plist_fits_parts _ _ Hp) as (_ & _ & Lp) end.
   unfold sp in Hl |- *. cbn [full_body] in Hl |- *.
-  unfold enc_props in E. rewrite Ety in E.
-  rewrite props_encode_entries in E by assumption. bindE E.
-  rewrite (finish_frame pk _ _ Hl Hb) in E. injection E as <-. reflexivity.
+  unfold enc_props . rewrite Ety .
+  rewrite props_encode_entries by assumption. cbn beta iota delta [bind].
+  rewrite (finish_frame pk _ _ Hl Hb) . reflexivity.
 Qed.
 
-Lemma ping_encodes pk bs ty : wf_packet pk = true -> fh_type (pk_fh pk) = ty -> ty = 12 \/ ty = 13 ->
-  mochi_encode pk = Ok bs -> encodes_as_form pk bs.
+Lemma ping_encode_ok pk ty : wf_packet pk = true -> fh_type (pk_fh pk) = ty -> ty = 12 \/ ty = 13 ->
+  encode_ok pk.
 Proof.
-  intros W Ety Hty E.
-  assert (E' : ping_encode pk = Ok bs).
-  { unfold mochi_encode in E. rewrite Ety in E. destruct Hty as [->| ->]; exact E. }
-  clear E. rename E' into E. unfold ping_encode, fh_encode in E.
+  intros W Ety Hty. unfold encode_ok.
+  assert (Em : mochi_encode pk = ping_encode pk).
+  { unfold mochi_encode. rewrite Ety. destruct Hty as [->| ->]; reflexivity. }
+  rewrite Em. clear Em. unfold ping_encode, fh_encode.
   assert (Ea : abs pk = if ty =? 12 then SPingreq else SPingresp).
   { unfold abs. rewrite Ety. destruct Hty as [->| ->]; reflexivity. }
   unfold wf_packet in W. rewrite Ety in W. cbv zeta in W. split_and.
-  assert (Hrem : fh_remaining (pk_fh pk) = 0).
-  { destruct Hty as [->| ->]; match goal with Hr : (if _ then fh_remaining _ =? 0 else true) = true |- _ =>
-      cbn in Hr; apply N.eqb_eq in Hr; exact Hr end. }
   assert (Hb : fh_byte (pk_fh pk) = ty * 16 + 2 * 0).
   { apply plain_header; try lia. destruct Hty as [->| ->]; assumption. }
-  rewrite Hrem, Hb in E. bindE E. injection E as <-.
-  unfold encodes_as_form. exists []. rewrite Ea.
+  assert (Hb' : fh_byte (set_fh_remaining 0 (pk_fh pk)) = ty * 16 + 2 * 0)
+    by (rewrite <- Hb; destruct (pk_fh pk); reflexivity).
+  rewrite Hb'. replace (fh_remaining (set_fh_remaining 0 (pk_fh pk))) with 0 by (destruct (pk_fh pk); reflexivity).
+  cbn beta iota delta [bind].
+  exists []. rewrite Ea.
   destruct Hty as [->| ->]; (split; [reflexivity|split; [unfold bodies; destruct (negb (v5 _)); left; reflexivity | change (0 <= 268435455); lia]]).
 Qed.
 
@@ -473,11 +477,11 @@ Proof.
   rewrite IH by assumption. rewrite encodeString_put by assumption. reflexivity.
 Qed.
 
-Lemma subscribe_encodes pk bs : wf_packet pk = true -> fh_type (pk_fh pk) = 8 ->
-  mochi_encode pk = Ok bs -> encodes_as_form pk bs.
+Lemma subscribe_encode_ok pk : wf_packet pk = true -> fh_type (pk_fh pk) = 8 -> KF_C26_pid0 pk = false ->
+  encode_ok pk.
 Proof.
-  intros W Ety E. unfold mochi_encode in E. rewrite Ety in E. unfold subscribe_encode in E.
-  wf_open W Ety. unfold encodes_as_form.
+  intros W Ety K. unfold encode_ok, mochi_encode. rewrite Ety. unfold subscribe_encode.
+  wf_open W Ety.
   assert (Ea : abs pk = SSubscribe (pk_packet_id pk)
                  (if pk_version pk =? 5
                   then entries 8 (pk_mods pk) (pk_props pk) (2 + blen (enc_filters (pk_version pk =? 5) (pk_filters pk))) else [])
@@ -492,21 +496,21 @@ Proof.
   { unfold sp. cbn [ptype pflags]. rewrite (plain_header pk 8 1 Ety); try lia. assumption. }
   match goal with Hp : plist_v _ SUBSCRIBE _ = true |- _ => pose proof (plist_v_len _ _ _ Hp) as Lp end.
   unfold sp in Hl |- *. cbn [full_body] in Hl |- *. unfold put_props_v, v5 in Hl |- *.
-  destruct (pk_packet_id pk =? 0); [discriminate|].
-  rewrite encodeUint16_put in E by lia. change (blen (put_u16 (pk_packet_id pk))) with 2 in E.
+  destruct (pk_packet_id pk =? 0) eqn:Ep; [exfalso; unfold KF_C26_pid0 in K; rewrite Ep, Ety in K; try rewrite Eq in K; discriminate K|].
+  rewrite encodeUint16_put by lia. change (blen (put_u16 (pk_packet_id pk))) with 2 .
   rewrite <- (enc_filters_put (pk_version pk) (pk_filters pk)) in Hl |- * by assumption.
   destruct (pk_version pk =? 5) eqn:E5.
-  - unfold enc_props in E. rewrite Ety in E.
-    rewrite props_encode_entries in E by assumption. bindE E.
-    rewrite (finish_frame pk _ _ Hl Hb) in E. injection E as <-. reflexivity.
-  - bindE E. rewrite (finish_frame pk _ _ Hl Hb) in E. injection E as <-. reflexivity.
+  - unfold enc_props . rewrite Ety .
+    rewrite props_encode_entries by assumption. cbn beta iota delta [bind].
+    rewrite (finish_frame pk _ _ Hl Hb) . reflexivity.
+  - cbn beta iota delta [bind]. rewrite (finish_frame pk _ _ Hl Hb) . reflexivity.
 Qed.
 
-Lemma unsubscribe_encodes pk bs : wf_packet pk = true -> fh_type (pk_fh pk) = 10 ->
-  mochi_encode pk = Ok bs -> encodes_as_form pk bs.
+Lemma unsubscribe_encode_ok pk : wf_packet pk = true -> fh_type (pk_fh pk) = 10 -> KF_C26_pid0 pk = false ->
+  encode_ok pk.
 Proof.
-  intros W Ety E. unfold mochi_encode in E. rewrite Ety in E. unfold unsubscribe_encode in E.
-  wf_open W Ety. unfold encodes_as_form.
+  intros W Ety K. unfold encode_ok, mochi_encode. rewrite Ety. unfold unsubscribe_encode.
+  wf_open W Ety.
   assert (Ea : abs pk = SUnsubscribe (pk_packet_id pk)
                  (if pk_version pk =? 5
                   then entries 10 (pk_mods pk) (pk_props pk) (2 + blen (enc_unsub_filters (pk_filters pk))) else [])
@@ -521,14 +525,14 @@ Proof.
   { unfold sp. cbn [ptype pflags]. rewrite (plain_header pk 10 1 Ety); try lia. assumption. }
   match goal with Hp : plist_v _ UNSUBSCRIBE _ = true |- _ => pose proof (plist_v_len _ _ _ Hp) as Lp end.
   unfold sp in Hl |- *. cbn [full_body] in Hl |- *. unfold put_props_v, v5 in Hl |- *.
-  destruct (pk_packet_id pk =? 0); [discriminate|].
-  rewrite encodeUint16_put in E by lia. change (blen (put_u16 (pk_packet_id pk))) with 2 in E.
+  destruct (pk_packet_id pk =? 0) eqn:Ep; [exfalso; unfold KF_C26_pid0 in K; rewrite Ep, Ety in K; try rewrite Eq in K; discriminate K|].
+  rewrite encodeUint16_put by lia. change (blen (put_u16 (pk_packet_id pk))) with 2 .
   rewrite <- (enc_unsub_filters_put (pk_filters pk)) in Hl |- * by assumption.
   destruct (pk_version pk =? 5) eqn:E5.
-  - unfold enc_props in E. rewrite Ety in E.
-    rewrite props_encode_entries in E by assumption. bindE E.
-    rewrite (finish_frame pk _ _ Hl Hb) in E. injection E as <-. reflexivity.
-  - bindE E. rewrite (finish_frame pk _ _ Hl Hb) in E. injection E as <-. reflexivity.
+  - unfold enc_props . rewrite Ety .
+    rewrite props_encode_entries by assumption. cbn beta iota delta [bind].
+    rewrite (finish_frame pk _ _ Hl Hb) . reflexivity.
+  - cbn beta iota delta [bind]. rewrite (finish_frame pk _ _ Hl Hb) . reflexivity.
 Qed.
 
 Lemma beq_bytes_eq a : forall b, beq_bytes a b = true -> a = b.
@@ -549,11 +553,11 @@ Proof.
   - destruct wf; destruct clean; destruct pf; destruct uf; vm_compute; reflexivity.
 Qed.
 
-Lemma connect_encodes pk bs : wf_packet pk = true -> fh_type (pk_fh pk) = 1 ->
-  mochi_encode pk = Ok bs -> encodes_as_form pk bs.
+Lemma connect_encode_ok pk : wf_packet pk = true -> fh_type (pk_fh pk) = 1 -> KF_C26_pid0 pk = false ->
+  encode_ok pk.
 Proof.
-  intros W Ety E. unfold mochi_encode in E. rewrite Ety in E. unfold connect_encode in E.
-  wf_open W Ety. unfold encodes_as_form. cbv zeta in E.
+  intros W Ety K. unfold encode_ok, mochi_encode. rewrite Ety. unfold connect_encode.
+  wf_open W Ety. cbv zeta.
   set (c := pk_connect pk) in *. set (v := pk_version pk) in *.
   assert (Ea : abs pk = SConnect v (c_clean c) (c_keepalive c)
                  (if v =? 5 then entries 1 (pk_mods pk) (pk_props pk) 0 else []) (c_client_id c)
@@ -595,46 +599,68 @@ Proof.
   match goal with Hn : c_protocol_name _ = _ |- _ => rewrite <- Hn in Hl |- * end.
   assert (Hnf : bin_fits (c_protocol_name c) = true).
   { match goal with Hn : c_protocol_name _ = _ |- _ => rewrite Hn end. destruct (v =? 3); reflexivity. }
-  rewrite (encodeBytes_put _ Hnf) in E.
-  rewrite encodeUint16_put in E by lia.
-  match goal with Hs : str_fits (c_client_id c) = true |- _ => rewrite (encodeString_put _ Hs) in E end.
-  unfold enc_props in E. rewrite Ety in E.
+  rewrite (encodeBytes_put _ Hnf) .
+  rewrite encodeUint16_put by lia.
+  match goal with Hs : str_fits (c_client_id c) = true |- _ => rewrite (encodeString_put _ Hs) end.
+  unfold enc_props . rewrite Ety .
   destruct (v =? 5) eqn:E5; destruct (c_will_flag c) eqn:Ew; destruct (c_username_flag c) eqn:Eu;
     destruct (c_password_flag c) eqn:Ep; cbn [opt_ok when will_props will_topic will_payload will_qos will_retain] in *;
     repeat match goal with Hw : will_fits _ _ = true |- _ =>
       unfold will_fits in Hw; cbn [will_props will_topic will_payload will_qos] in Hw; split_and end;
     repeat match goal with Hp : plist_v _ WILLPROPS _ = true |- _ => apply plist_v_len in Hp end;
-    repeat (rewrite props_encode_entries in E by assumption);
-    repeat match goal with Hs : str_fits ?x = true |- _ => rewrite (encodeString_put x Hs) in E end;
-    repeat match goal with Hs : bin_fits ?x = true |- _ => rewrite (encodeBytes_put x Hs) in E end;
-    bindE E; match type of E with finish pk ?b = _ => rewrite (finish_frame pk b _ Hl Hb) in E end;
-    injection E as <-; reflexivity.
+    repeat (rewrite props_encode_entries by assumption);
+    repeat match goal with Hs : str_fits ?x = true |- _ => rewrite (encodeString_put x Hs) end;
+    repeat match goal with Hs : bin_fits ?x = true |- _ => rewrite (encodeBytes_put x Hs) end;
+    cbn beta iota delta [bind]; match goal with |- finish pk ?b = _ => rewrite (finish_frame pk b _ Hl Hb) end;
+    reflexivity.
 Qed.
 
-Theorem encode_is_form pk bs : wf_packet pk = true -> mochi_encode pk = Ok bs -> encodes_as_form pk bs.
+(* the encoder succeeds on every well-formed packet whose packet identifier is not the refused 0
+   (known finding KF_C26_pid0), and what it writes is a reference form of [abs pk] *)
+Theorem encode_total pk : wf_packet pk = true -> KF_C26_pid0 pk = false -> encode_ok pk.
 Proof.
-  intros W E.
+  intros W K.
   assert (T : 1 <= fh_type (pk_fh pk) <= 15).
   { unfold wf_packet in W. cbv zeta in W. split_and. lia. }
   remember (fh_type (pk_fh pk)) as ty eqn:Ety. symmetry in Ety.
   assert (C : ty = 1 \/ ty = 2 \/ ty = 3 \/ ty = 4 \/ ty = 5 \/ ty = 6 \/ ty = 7 \/ ty = 8 \/ ty = 9 \/
               ty = 10 \/ ty = 11 \/ ty = 12 \/ ty = 13 \/ ty = 14 \/ ty = 15) by lia.
   destruct C as [->|[->|[->|[->|[->|[->|[->|[->|[->|[->|[->|[->|[->|[->| ->]]]]]]]]]]]]]].
-  - apply connect_encodes; assumption.
-  - apply connack_encodes; assumption.
-  - apply publish_encodes; assumption.
-  - apply (ack_encodes pk bs 4); auto.
-  - apply (ack_encodes pk bs 5); auto.
-  - apply (ack_encodes pk bs 6); auto.
-  - apply (ack_encodes pk bs 7); auto.
-  - apply subscribe_encodes; assumption.
-  - apply suback_encodes; assumption.
-  - apply unsubscribe_encodes; assumption.
-  - apply unsuback_encodes; assumption.
-  - apply (ping_encodes pk bs 12); auto.
-  - apply (ping_encodes pk bs 13); auto.
-  - apply disconnect_encodes; assumption.
-  - apply auth_encodes; assumption.
+  - apply connect_encode_ok; assumption.
+  - apply connack_encode_ok; assumption.
+  - apply publish_encode_ok; assumption.
+  - apply (ack_encode_ok pk 4); auto.
+  - apply (ack_encode_ok pk 5); auto.
+  - apply (ack_encode_ok pk 6); auto.
+  - apply (ack_encode_ok pk 7); auto.
+  - apply subscribe_encode_ok; assumption.
+  - apply suback_encode_ok; assumption.
+  - apply unsubscribe_encode_ok; assumption.
+  - apply unsuback_encode_ok; assumption.
+  - apply (ping_encode_ok pk 12); auto.
+  - apply (ping_encode_ok pk 13); auto.
+  - apply disconnect_encode_ok; assumption.
+  - apply auth_encode_ok; assumption.
+Qed.
+
+(* the only error the encoder returns for a well-formed packet is the refused identifier 0 *)
+Lemma encode_pid0 pk : wf_packet pk = true -> KF_C26_pid0 pk = true -> mochi_encode pk = Err ENoPacketID.
+Proof.
+  intros W K. unfold KF_C26_pid0 in K. apply andb_prop in K. destruct K as [Hp Ht].
+  unfold mochi_encode.
+  apply orb_prop in Ht. destruct Ht as [Ht|Ht]; [apply orb_prop in Ht; destruct Ht as [Ht|Ht]|].
+  - apply andb_prop in Ht. destruct Ht as [Ht Hq]. apply N.eqb_eq in Ht. rewrite Ht.
+    unfold publish_encode. rewrite Hq, Hp. reflexivity.
+  - apply N.eqb_eq in Ht. rewrite Ht. unfold subscribe_encode. rewrite Hp. reflexivity.
+  - apply N.eqb_eq in Ht. rewrite Ht. unfold unsubscribe_encode. rewrite Hp. reflexivity.
+Qed.
+
+Theorem encode_is_form pk bs : wf_packet pk = true -> mochi_encode pk = Ok bs -> encodes_as_form pk bs.
+Proof.
+  intros W E. destruct (KF_C26_pid0 pk) eqn:K.
+  - rewrite (encode_pid0 pk W K) in E. discriminate E.
+  - destruct (encode_total pk W K) as (body & Eb & Hin & Hl). rewrite Eb in E. injection E as <-.
+    exists body. split; [reflexivity|]. split; assumption.
 Qed.
 
 (* round trip: what the encoder writes for a well-formed packet, followed by anything, is decoded
